@@ -183,6 +183,11 @@ def _lookup(cell, stats):
                        len(mvr_ph) == nph and all(m.phantom is True and m.votes == {} for m in mvr_ph)))
         claims.append(("selection order recorded for every card", sorted(v["selection_order"] for v in order.values()) == list(range(len(order)))
                        and (len(order) == 2 or len(order) == 1)))
+        if len(order) == 2:      # the k-th sample number's card carries selection order k (serial = sample number + 1 identifies it)
+            for v in order.values():
+                if v["selection_order"] in (0, 1):
+                    claims.append((f"the card recorded with selection order {v['selection_order']} is the one drawn at that position",
+                                   _z(v["serial"]) == (s1, s2)[v["selection_order"]] + 1))
         if len(order) == 1:
             claims.append(("two sample numbers share one card only if they are equal", s1 == s2))
         for name, cl in claims:
